@@ -69,6 +69,7 @@ CfgAll == {[ft |-> f, st |-> s, mr |-> m, iv |-> i, to |-> t] :
              f \in 1..3, s \in 1..3, m \in 1..3, i \in 1..2, t \in 1..2}
 CfgValid == {c \in CfgAll : c.mr >= c.st}
 CfgQuick == {c \in CfgAll : c.iv = 1 /\ c.to = 1}
+CfgSys == {[ft |-> 2, st |-> 1, mr |-> 1, iv |-> 2, to |-> 1], [ft |-> 1, st |-> 2, mr |-> 2, iv |-> 1, to |-> 1], [ft |-> 3, st |-> 2, mr |-> 3, iv |-> 1, to |-> 2]}
 CfgStarve == {c \in CfgAll : c.mr < c.st /\ c.iv = 1 /\ c.to = 1}
 CfgSmall == {[ft |-> f, st |-> s, mr |-> m, iv |-> 1, to |-> 1] : f \in 1..2, s \in 1..2, m \in 1..2}
 CfgOne == {[ft |-> 2, st |-> 2, mr |-> 2, iv |-> 2, to |-> 2]}
